@@ -16,6 +16,17 @@ from .C01 import sname, fits, factor_lit
 from .C05 import ename, erange
 
 PROP = "C03"
+
+
+def _lit(v):
+    """C++ literal of an operand bound (bounds beyond 64 bits are built in 128-bit arithmetic: a bare decimal literal that
+    large is unsigned long long and its negation wraps)"""
+    if -(1 << 63) < v < (1 << 63):
+        return "%dLL" % v if v >= 0 else "(-%dLL)" % -v
+    m = abs(v)
+    e = "(((cnl::int128_t)%dULL << 64) | (cnl::int128_t)%dULL)" % (m >> 64, m & ((1 << 64) - 1))
+    return e if v >= 0 else "(-%s)" % e
+
 CMPS = ["==", "!=", "<", "<=", ">", ">="]
 
 
@@ -76,7 +87,7 @@ def gen(tier, rng):
                         EL, ER = ename(L, Ls, fam), ename(R, Rs, fam)
                         ra, rb = "cnl::_impl::rep_of_t<%s>" % EL, "cnl::_impl::rep_of_t<%s>" % ER
                         A, B = erange(L, Ls), erange(R, Rs)
-                        pre = ["a >= %s" % ("-%d" % -A[0] if A[0] else "0"), "a <= %d" % A[1], "b >= %s" % ("-%d" % -B[0] if B[0] else "0"), "b <= %d" % B[1]]
+                        pre = ["a >= %s" % _lit(A[0]), "a <= %s" % _lit(A[1]), "b >= %s" % _lit(B[0]), "b <= %s" % _lit(B[1])]
                         pre = [p for p in pre if not p.endswith(">= 0") or True]
                         for op in CMPS:
                             refs = ["return (%s)a %s (%s)b;" % (w, op, w) for w in ("std::int64_t", "cnl::int128_t", "std::int32_t", "std::int16_t") if {"std::int64_t": 63, "cnl::int128_t": 127, "std::int32_t": 31, "std::int16_t": 15}[w] >= max(L, R)]
@@ -93,7 +104,7 @@ def gen(tier, rng):
             EL = ename(L, Ls, "int")
             ra = "cnl::_impl::rep_of_t<%s>" % EL
             A = erange(L, Ls)
-            pre = ["a >= %s" % ("-%d" % -A[0] if A[0] else "0"), "a <= %d" % A[1]]
+            pre = ["a >= %s" % _lit(A[0]), "a <= %s" % _lit(A[1])]
             for op in CMPS:
                 refs = ["return (cnl::int128_t)a %s (cnl::int128_t)b;" % op, "return (std::int64_t)a %s (std::int64_t)b;" % op] if B is not U64 else ["return (cnl::int128_t)a %s (cnl::int128_t)b;" % op]
                 obs.append(kern.Ob("%s/elastic-vs-builtin/%d%s,%s/%s" % (cfg, L, "s" if Ls else "u", B.short, op), "bool", [(ra, "a"), (B.name, "b")],
@@ -112,7 +123,7 @@ def gen(tier, rng):
                 TB = "elastic_scaled_integer<%d, power<%d>, %s>" % (l[3], l[5], "int" if l[4] else "unsigned")
                 ra, rb = "decltype(unwrap(std::declval<%s>()))" % TA, "decltype(unwrap(std::declval<%s>()))" % TB
                 A, B = erange(l[0], l[1]), erange(l[3], l[4])
-                pre = ["a >= %s" % ("-%d" % -A[0] if A[0] else "0"), "a <= %d" % A[1], "b >= %s" % ("-%d" % -B[0] if B[0] else "0"), "b <= %d" % B[1]]
+                pre = ["a >= %s" % _lit(A[0]), "a <= %s" % _lit(A[1]), "b >= %s" % _lit(B[0]), "b <= %s" % _lit(B[1])]
                 d = l[2] - l[5]
                 for op in CMPS:
                     refs = []
